@@ -101,6 +101,9 @@ type Options struct {
 type FixedProc struct {
 	Beh   string
 	Delay int
+	// KillAtMs > 0: one Kill that many ms after the start (e.g. while the last output of a process that has already
+	// exited is still being written by a slow log writer)
+	KillAtMs int
 }
 
 // Run executes one random program and returns the recorded events.
@@ -159,8 +162,9 @@ func Run(opt Options) []rec.Event {
 		if opt.Burst {
 			beh, delay, ops = []string{"exit0", "exit3", "exit137"}[rnd.Intn(3)], 0, 0
 		}
+		killAt := 0
 		if i < len(opt.Fixed) {
-			beh, delay, ops = opt.Fixed[i].Beh, opt.Fixed[i].Delay, 0
+			beh, delay, ops, killAt = opt.Fixed[i].Beh, opt.Fixed[i].Delay, 0, opt.Fixed[i].KillAtMs
 		}
 		seed := rnd.Int63()
 		idx := i
@@ -242,6 +246,14 @@ func Run(opt Options) []rec.Event {
 			}
 			// (every other process of behaviour orphan0 is left to the Kill of the clean-up: a group whose leader was
 			//  reaped and whose member still holds the output must be killed by it, F-C19-2)
+			if killAt > 0 {
+				if d := time.Duration(killAt)*time.Millisecond - time.Since(t0exec); d > 0 {
+					time.Sleep(d)
+				}
+				r.Emit(name, "KillCall", "name", name, "past", false)
+				err := sv.Kill(context.Background(), &supvmodel.KillRequest{Domain: "runtime", Name: name, Deadline: time.Now().Add(3 * time.Second)})
+				r.Emit(name, "KillRet", "name", name, "err", errs(err), "gone", !real || err != nil || gone(pid), "past", false)
+			}
 			if real && (beh == "fork" || beh == "orphanq" || (beh == "orphan0" && idx%2 == 1)) && !opt.Burst {
 				// Terminate delivers SIGTERM to the whole group - also when the leader has exited by then and only
 				// members are left.  Observed 150 ms after the start at the earliest (every member has its own
